@@ -12,9 +12,13 @@ only if every configured mock was generated and written.
    working tree: exit status, diagnostic, Go panic scan, configured mocks present.  The model's prediction (BEH) for
    the observed file order is compared too -- a disagreement that the contract accepts is drift.
 3. spec/PipelineValid.tla enumerates valid-but-unusual inputs (function-local types incl. shadowing and blank names,
-   build-tagged / ignored / test-only files, packages without interfaces, go.mod spellings, rare syntax; exhaustive
-   short declaration sequences + random longer ones): each must exit 0, not panic, and mock every declaration the
-   contract marks as a package-level interface.
+   the alias family -- alias of an interface literal / instantiated generic / alias / foreign or predeclared
+   interface / struct, func, pointer, map, slice -- and defined types over instances, build-tagged / ignored /
+   test-only files, packages without interfaces, go.mod spellings, rare syntax; every kind under every selection mode
+   (all: true / by name / present but not selected); exhaustive short declaration sequences + random longer ones):
+   each must exit 0, not panic, and mock every declaration the contract marks as a package-level interface.
+   The schema-rejected-data class is injected at each level WHILE the other levels carry conforming data for the
+   same key, including values of another JSON type that print the same (false / "false", "1" / 1).
 4. Every hook trace is validated by TLC against spec/PipelineTrace.tla.
 """
 import json
